@@ -246,10 +246,12 @@ def startConverter (s : St) : St :=
     else
       let s := active.foldl (fun s (c, _) => { s with toconv := sins c [] s.toconv }) s
       let (s, fs) := getIndexesCopy s 0
+      -- a stream that is in none of the held files fails twice and is dropped from the set
+      let found : IdSet := fs.foldl (fun acc f => union acc ((nget s.files f).getD [])) []
       -- streams already cached are reported back as not converted (`alreadyCached` → Unset)
-      let remaining := active.map fun (c, req) => (c, diff req ((sget s.cached c).getD []))
+      let remaining := active.map fun (c, req) => (c, inter (diff req ((sget s.cached c).getD [])) found)
       let s := active.foldl (fun s (c, req) =>
-        { s with cached := sins c (union ((sget s.cached c).getD []) req) s.cached }) s
+        { s with cached := sins c (union ((sget s.cached c).getD []) (inter req found)) s.cached }) s
       { s with convert := true, jConv := some (remaining, fs) }
 
 /-- start of `importPcapJob` with the whole queue as its batch. The builder appends the batch to
